@@ -56,7 +56,8 @@ GenVectors ==
         good == SelectSeq(mine, LAMBDA r: BodyOKF(Family, r.p))
         illf == SelectSeq(mine, LAMBDA r: IllFormed(r.p))
         vecs == FlatMap(LAMBDA r: IF Light THEN LightVectors(r.p) ELSE Vectors(r.p), good)
-               \o [j \in 1..Len(illf) |-> [ast |-> illf[j].p, kind |-> "illformed"]]
+               \o [j \in 1..Len(illf) |-> [ast |-> IF Prefix(Family) = Emp THEN illf[j].p ELSE Cat(Prefix(Family), illf[j].p),
+                                             kind |-> "illformed"]]
         BuildErr(p) == BuildQueryNoSimp(Cat(Prefix(Family), p)).err
     IN \* the two notions of a closed, well-scoped program agree: Zw!WellFormed on the AST and the
        \* exceptions of bindings::bind / READ in EngineOps!BuildT on the tree
